@@ -199,25 +199,43 @@ func (m *Model) ruleDONE(r *Results) {
 	}
 	// (c) callback only for non-nil events
 	{
-		ev := pull.Value()
-		c := newCut()
-		found := false
-		for _, iff := range allIfs(fn) {
-			cd := condOf(iff)
-			eq, ok := cd.equalEdge()
-			if !ok {
-				continue
+		// the event handed to the callback, and where it is defined
+		var ev ssa.Value
+		for _, a := range cb.Common().Args {
+			v := stripConv(a)
+			if ld, ok := v.(*ssa.UnOp); ok && ld.Op == token.MUL {
+				v = stripConv(ld.X)
 			}
-			if isNilConst(cd.Y) && stripConv(cd.X) == ssa.Value(ev) || isNilConst(cd.X) && stripConv(cd.Y) == ssa.Value(ev) {
-				for _, s := range iff.Block().Succs {
-					if s != eq {
-						c.cutEdge(iff.Block(), s)
-						found = true
+			if m.pulledValue(v) {
+				ev = v
+			}
+		}
+		if ev == nil {
+			r.bad(rule, name+" / callback only for events", m.instrPos(cb), "the callback is not handed the event that was just pulled from the queue")
+		} else {
+			def := pull.Block()
+			if in, ok := ev.(ssa.Instruction); ok {
+				def = in.Block()
+			}
+			c := newCut()
+			found := false
+			for _, iff := range allIfs(fn) {
+				cd := condOf(iff)
+				eq, ok := cd.equalEdge()
+				if !ok {
+					continue
+				}
+				if isNilConst(cd.Y) && stripConv(cd.X) == ev || isNilConst(cd.X) && stripConv(cd.Y) == ev {
+					for _, s := range iff.Block().Succs {
+						if s != eq {
+							c.cutEdge(iff.Block(), s)
+							found = true
+						}
 					}
 				}
 			}
+			r.check(found && !reachableFrom(def, c)[cb.Block().Index] || found && cb.Block() != def && !reachableFromSuccs(def, c)[cb.Block().Index], rule, name+" / callback only for events", m.instrPos(cb), "the callback is invoked only for a non-nil event (a nil pull means the queue was closed)", "the callback can be invoked after the queue was closed (nil event)")
 		}
-		r.check(found && !reachableFrom(pull.Block(), c)[cb.Block().Index] || found && cb.Block() != pull.Block() && !reachableFromSuccs(pull.Block(), c)[cb.Block().Index], rule, name+" / callback only for events", m.instrPos(cb), "the callback is invoked only for a non-nil event (a nil pull means the queue was closed)", "the callback can be invoked after the queue was closed (nil event)")
 	}
 	// (d) multi-collection start: fresh per-collection done channels, coalesced close of the caller's channel
 	nFresh, nCoalesce := 0, 0
@@ -636,8 +654,15 @@ func (m *Model) ruleVIEW(r *Results) {
 		r.undecided(rule, "index update", "-", "no UPDATE views statement found")
 		return
 	}
+	// the transaction closure the mark update belongs to, and its extent (helpers included)
+	for _, tc := range m.txnClosures() {
+		if m.reachableLocal(tc.Fn)[updFn] {
+			updFn = tc.Fn
+		}
+	}
+	extent := m.reachableLocal(updFn)
 	for _, s := range m.Sites {
-		if s.Fn != updFn {
+		if !extent[s.Fn] {
 			continue
 		}
 		for _, v := range s.Variants {
@@ -648,7 +673,7 @@ func (m *Model) ruleVIEW(r *Results) {
 			switch {
 			case st.Kind == sqlp.SDelete && lower(st.Table) == "mapped":
 				del = s
-			case st.Kind == sqlp.SSelect && st.Select != nil && len(st.Select.From) == 1 && lower(st.Select.From[0].Name) == "documents":
+			case st.Kind == sqlp.SSelect && st.Select != nil && len(st.Select.From) == 1 && lower(st.Select.From[0].Name) == "documents" && s.Method == "Query":
 				sel = s
 			case st.Kind == sqlp.SInsert && lower(st.Table) == "mapped":
 				ins = s
@@ -656,6 +681,23 @@ func (m *Model) ruleVIEW(r *Results) {
 		}
 	}
 	name := m.declName(updFn)
+	// the instruction of the closure that performs (or leads to) a site
+	anchor := func(s *SQLSite) ssa.Instruction {
+		if s.Fn == updFn {
+			return s.Call
+		}
+		var out ssa.Instruction
+		var visit func(f *ssa.Function)
+		visit = func(f *ssa.Function) {
+			m.eachCall(f, func(c ssa.CallInstruction) {
+				if callee := c.Common().StaticCallee(); callee != nil && m.inPkg(callee) && m.reachableLocal(callee)[s.Fn] && f == updFn {
+					out = c
+				}
+			})
+		}
+		visit(updFn)
+		return out
+	}
 	if del == nil || sel == nil || ins == nil {
 		r.bad(rule, name+" / shape", m.instrPos(upd.Call), "the index-update transaction must delete the obsolete rows of changed documents (DELETE FROM mapped ... IN (SELECT ... documents)), re-map them (SELECT ... FROM documents) and insert the new rows; found delete=%v select=%v insert=%v in this closure", del != nil, sel != nil, ins != nil)
 	} else {
@@ -682,7 +724,7 @@ func (m *Model) ruleVIEW(r *Results) {
 		if okSame {
 			bd, ok1 := del.bindingFor(dP)
 			bs, ok2 := sel.bindingFor(sP)
-			okSame = ok1 && ok2 && m.sameFieldOfSameCell(bd, bs)
+			okSame = ok1 && ok2 && (m.sameFieldOfSameCell(bd, bs) || m.sameMarkThroughHelpers(del, bd, sel, bs, updFn))
 		}
 		r.check(okSame, rule, name+" / delete and re-map agree", m.instrPos(del.Call), "obsolete-row delete and re-map select range over the same documents (cas "+dOp+" the view's mark)", fmt.Sprintf("the delete of obsolete index rows (cas %s mark) and the re-map select (cas %s mark) do not range over the same set of documents: rows are duplicated or lost", dOp, sOp))
 		// the re-map select keeps documents that have a body or xattrs
@@ -694,7 +736,8 @@ func (m *Model) ruleVIEW(r *Results) {
 		}
 		r.check(keep, rule, name+" / re-map filter", m.instrPos(sel.Call), "documents with a body or xattrs are re-mapped", "the re-map select's filter changed")
 		// delete precedes inserts
-		r.check(instrReachable(del.Call, ins.Call, nil) && !instrReachable(ins.Call, del.Call, nil), rule, name+" / delete before insert", m.instrPos(del.Call), "obsolete rows are deleted before new rows are inserted", "index rows are inserted before the obsolete ones are deleted")
+		da, ia := anchor(del), anchor(ins)
+		r.check(da != nil && ia != nil && instrReachable(da, ia, nil) && !instrReachable(ia, da, nil), rule, name+" / delete before insert", m.instrPos(del.Call), "obsolete rows are deleted before new rows are inserted", "index rows are inserted before the obsolete ones are deleted")
 	}
 	// the view mark is set to the collection mark read through the same transaction
 	{
@@ -984,7 +1027,7 @@ func (m *Model) ruleBGPANIC(r *Results) {
 			n++
 			key := m.declName(fn) + " / explicit panic"
 			switch {
-			case fn == m.A.Converter:
+			case fn == m.A.Converter || m.declName(fn) == m.roleOf(m.A.Converter):
 				r.ok(rule, key+" (converter assertion)", m.instrPos(c), "assertion on the event's expiry/revision number; its condition is excluded on every path by R-EXP (absolute expiry) and R-REV (revision number = n+1 >= 1)")
 			case bg[fn] != "":
 				r.bad(rule, key, m.instrPos(c), "an explicit panic is reachable from the background goroutine / timer callback %s: an error there (e.g. the bucket being closed concurrently) kills the whole process", bg[fn])
@@ -1029,7 +1072,15 @@ func (m *Model) ruleEVTCONV(r *Results) {
 			for _, e := range x.Edges {
 				deps(e, depth+1, seen, out)
 			}
+		case *ssa.Extract:
+			deps(x.Tuple, depth+1, seen, out)
 		case *ssa.Call:
+			// a method of the event called on the same receiver: the fields it reads
+			if callee := x.Common().StaticCallee(); callee != nil && m.inPkg(callee) && len(x.Common().Args) > 0 && stripConv(x.Common().Args[0]) == ssa.Value(recv) && callee.Signature.Recv() != nil {
+				for f := range m.fieldsReadVia(callee, map[*ssa.Function]bool{}) {
+					out[f] = true
+				}
+			}
 			for _, arg := range x.Common().Args {
 				deps(arg, depth+1, seen, out)
 			}
@@ -1104,18 +1155,18 @@ func (m *Model) ruleEVTCONV(r *Results) {
 			r.check(okDeps, rule, key, m.instrPos(st), "FeedEvent."+fname+" is computed from event."+wantF.Name(), fmt.Sprintf("FeedEvent.%s is computed from event field(s) %v, want %s: the delivered event does not describe the stored row", fname, gotNames, wantF.Name()))
 			// polarity of the two selectors
 			if (fname == "Opcode" || fname == "DataType") && !strings.Contains(key, "xattr branch") {
-				if call, ok := stripConv(st.Val).(*ssa.Call); ok && len(call.Common().Args) == 3 {
-					tv, ok1 := stripConv(call.Common().Args[1]).(*ssa.Const)
-					var wantConst constant.Value
-					if fname == "Opcode" {
-						wantConst = m.sgConst("FeedOpDeletion")
-					} else {
-						wantConst = m.sgConst("FeedDataTypeJSON")
-					}
-					good := ok1 && tv.Value != nil && wantConst != nil && constant.Compare(tv.Value, token.EQL, wantConst)
-					r.check(good, rule, key+" polarity", m.instrPos(st), "the flag's true side selects the matching constant", "the selector for FeedEvent."+fname+" is inverted (true side does not select the deletion / JSON constant)")
+				var wantConst constant.Value
+				if fname == "Opcode" {
+					wantConst = m.sgConst("FeedOpDeletion")
 				} else {
+					wantConst = m.sgConst("FeedDataTypeJSON")
+				}
+				onTrue, ok := m.constSelectedOnTrue(st.Val, wantF, 0)
+				if !ok {
 					r.undecided(rule, key+" polarity", m.instrPos(st), "cannot see how FeedEvent.%s is selected", fname)
+				} else {
+					good := onTrue != nil && wantConst != nil && constant.Compare(onTrue, token.EQL, wantConst)
+					r.check(good, rule, key+" polarity", m.instrPos(st), "the flag's true side selects the matching constant", "the selector for FeedEvent."+fname+" is inverted (true side does not select the deletion / JSON constant)")
 				}
 			}
 		}
@@ -1205,4 +1256,216 @@ func (m *Model) ruleERRPROP(r *Results) {
 	if n < 30 {
 		r.undecided(rule, "instance-floor", "-", "only %d storage calls found inside transactions", n)
 	}
+}
+
+// constSelectedOnTrue: v is selected between two constants by a bool field `flag` of some
+// object: which constant is chosen when the flag is true? Understands the generic
+// ifelse(cond, a, b) helper shape, a phi controlled by an If on the flag, and a helper
+// function/method whose returns are such constants.
+func (m *Model) constSelectedOnTrue(v ssa.Value, flag *types.Var, depth int) (constant.Value, bool) {
+	if depth > 3 {
+		return nil, false
+	}
+	v = stripConv(v)
+	readsFlag := func(x ssa.Value) bool {
+		_, f, ok := fieldLoad(x)
+		return ok && f == flag
+	}
+	switch x := v.(type) {
+	case *ssa.Call:
+		args := x.Common().Args
+		callee := x.Common().StaticCallee()
+		if len(args) == 3 && readsFlag(args[0]) {
+			if c, ok := stripConv(args[1]).(*ssa.Const); ok && c.Value != nil {
+				return c.Value, true
+			}
+			return nil, false
+		}
+		if callee != nil && m.inPkg(callee) && len(callee.Blocks) > 0 {
+			// a helper: look at its returns
+			for _, ret := range returnsOf(callee) {
+				if len(ret.Results) != 1 {
+					continue
+				}
+				res := stripConv(ret.Results[0])
+				if c, ok := res.(*ssa.Const); ok && c.Value != nil {
+					for _, ct := range controllingConds(callee, ret.Block()) {
+						cd := condOf(ct.If)
+						if cd.Op == token.ILLEGAL && cd.X != nil {
+							isFlag := readsFlag(cd.X)
+							if p, okp := stripConv(cd.X).(*ssa.Parameter); okp && !isFlag {
+								// flag passed as a bool parameter
+								for i, q := range callee.Params {
+									if q == p && i < len(args) && readsFlag(args[i]) {
+										isFlag = true
+									}
+								}
+							}
+							taken := ct.Branch
+							if cd.Neg {
+								taken = !taken
+							}
+							if isFlag && taken {
+								return c.Value, true
+							}
+						}
+					}
+					continue
+				}
+				if cv, ok := m.constSelectedOnTrue(res, flag, depth+1); ok {
+					return cv, true
+				}
+			}
+		}
+	case *ssa.Phi:
+		fn := x.Parent()
+		for _, pred := range x.Block().Preds {
+			for p := pred; p != nil; p = p.Idom() {
+				if len(p.Instrs) == 0 {
+					continue
+				}
+				if iff, ok := p.Instrs[len(p.Instrs)-1].(*ssa.If); ok {
+					if readsFlag(iff.Cond) {
+						n := m.phiConstOnTrueSide(x, iff)
+						for _, e := range x.Edges {
+							if c, ok := e.(*ssa.Const); ok && c.Value != nil && int(c.Int64()) == n {
+								return c.Value, true
+							}
+						}
+					}
+					break
+				}
+			}
+		}
+		_ = fn
+	}
+	return nil, false
+}
+
+// derivesWithParity: like derivesFromField, but also says whether v is the field's value (neg=false)
+// or its negation (neg=true). Mixed parities give ok=false.
+func (m *Model) derivesWithParity(v ssa.Value, fieldName string, depth int, seen map[ssa.Value]bool) (ok bool, neg bool) {
+	if depth > 8 || v == nil || seen[v] {
+		return false, false
+	}
+	seen[v] = true
+	v = stripConv(v)
+	if _, f, isLoad := fieldLoad(v); isLoad && f.Name() == fieldName {
+		return true, false
+	}
+	merge := func(vals []ssa.Value) (bool, bool) {
+		any, first, neg := false, true, false
+		for _, x := range vals {
+			o, n := m.derivesWithParity(x, fieldName, depth+1, seen)
+			if !o {
+				continue
+			}
+			any = true
+			if first {
+				neg, first = n, false
+			} else if n != neg {
+				return false, false
+			}
+		}
+		return any, neg
+	}
+	switch x := v.(type) {
+	case *ssa.Phi:
+		return merge(x.Edges)
+	case *ssa.Extract:
+		return m.derivesWithParity(x.Tuple, fieldName, depth+1, seen)
+	case *ssa.Call:
+		if callee := x.Common().StaticCallee(); callee != nil && m.inPkg(callee) {
+			var vals []ssa.Value
+			for _, ret := range returnsOf(callee) {
+				vals = append(vals, ret.Results...)
+			}
+			return merge(vals)
+		}
+	case *ssa.UnOp:
+		if x.Op == token.NOT {
+			o, n := m.derivesWithParity(x.X, fieldName, depth+1, seen)
+			return o, !n
+		}
+		if x.Op == token.MUL {
+			if cell, ok := x.X.(*ssa.Alloc); ok {
+				var vals []ssa.Value
+				for _, ref := range *cell.Referrers() {
+					if st, ok := ref.(*ssa.Store); ok && st.Addr == cell {
+						vals = append(vals, st.Val)
+					}
+				}
+				return merge(vals)
+			}
+		}
+	}
+	return false, false
+}
+
+// sameMarkThroughHelpers: both statements bind the lastCas field of the view object held in the
+// same cell of the closure, possibly passed through a helper parameter.
+func (m *Model) sameMarkThroughHelpers(s1 *SQLSite, b1 Binding, s2 *SQLSite, b2 Binding, K *ssa.Function) bool {
+	src := func(s *SQLSite, b Binding) (ssa.Value, *types.Var) {
+		fr := topFrame(s.Fn)
+		if s.Fn != K {
+			// helper called from K: bind its parameters at the call site
+			var call ssa.CallInstruction
+			m.eachCall(K, func(c ssa.CallInstruction) {
+				if c.Common().StaticCallee() == s.Fn {
+					call = c
+				}
+			})
+			if call == nil {
+				return nil, nil
+			}
+			fr = m.closureFrame(K).inline(call, s.Fn)
+		}
+		rv, _ := m.resolve(b.V, fr)
+		base, f, ok := fieldLoad(rv)
+		if !ok {
+			// the helper may receive the mark itself as a parameter
+			if _, f2, ok2 := fieldLoad(stripConv(rv)); ok2 {
+				return nil, f2
+			}
+			return nil, nil
+		}
+		bv, _ := m.resolve(base, fr)
+		if ld, ok := stripConv(bv).(*ssa.UnOp); ok && ld.Op == token.MUL {
+			return ld.X, f
+		}
+		return stripConv(bv), f
+	}
+	c1, f1 := src(s1, b1)
+	c2, f2 := src(s2, b2)
+	return f1 != nil && f1 == f2 && c1 != nil && c1 == c2
+}
+
+// pulledValue: v is the result of pulling from the queue (every phi leaf is a pull call).
+func (m *Model) pulledValue(v ssa.Value) bool {
+	seen := map[ssa.Value]bool{}
+	n := 0
+	var rec func(v ssa.Value) bool
+	rec = func(v ssa.Value) bool {
+		v = stripConv(v)
+		if seen[v] {
+			return true
+		}
+		seen[v] = true
+		switch x := v.(type) {
+		case *ssa.Phi:
+			for _, e := range x.Edges {
+				if !rec(e) {
+					return false
+				}
+			}
+			return true
+		case *ssa.Call:
+			if callee := x.Common().StaticCallee(); callee != nil && m.isQueueMethod(callee, "pull") {
+				n++
+				return true
+			}
+		}
+		return false
+	}
+	return rec(v) && n > 0
 }
